@@ -1,3 +1,4 @@
+import Vflow.Proofs.EqnsIpfix
 import Vflow.Model.Ipfix
 import Vflow.Proofs.ReaderLemmas
 /-!
@@ -83,21 +84,6 @@ theorem dataLen_mono (specLen ty : Nat) : Mono (fun r => dataLen r specLen ty) :
 
 /-! unfolding equations of `decFields`, stated by hand: the automatically generated ones need a
 deeper recursion limit than the default (the body mentions `interpret` / the element table) -/
-theorem decFields_nil (r : Rd) (acc : Record) : decFields [] r acc = (.ok acc, r) := rfl
-
-set_option maxRecDepth 10000 in
-theorem decFields_cons (f : Spec) (fs : List Spec) (r : Rd) (acc : Record) :
-    decFields (f :: fs) r acc =
-      match lookupElem f.ent f.id with
-      | none => (.error .unknownElem, r)
-      | some (fid, t) =>
-        match dataLen r f.len t with
-        | (.error e, r1) => (.error e, r1)
-        | (.ok n, r1) =>
-          match r1.readN n with
-          | none => (.error .short, r1)
-          | some (b, r2) => decFields fs r2 (acc ++ [⟨fid, f.ent, interpret b t⟩]) := rfl
-
 theorem decFields_mono (fs : List Spec) (acc : Record) : Mono (fun r => decFields fs r acc) := by
   induction fs generalizing acc with
   | nil =>
